@@ -18,6 +18,21 @@ NODES = (1, 2, 3)
 T_LO, T_HI = 0, 4            # instants used by generated calls; queries look at T_LO-1 .. T_HI+2
 
 
+def qs_of(M, base=None):
+    """query instants: the fixed window plus a margin around every instant the model knows"""
+    out = set(base if base is not None else range(T_LO - 2, T_HI + 4))
+    inst = M.instants()
+    if not M.removal:
+        inst = sorted(set(inst) | set(M.first.values()))
+    for q in inst:
+        if q < T_LO - 2 or q > T_HI + 3:
+            out.update((q - 1, q, q + 1))
+    if inst:
+        out.update(range(min(inst) - 2, min(inst) + 1))
+        out.update(range(max(inst), max(inst) + 3))
+    return sorted(out)
+
+
 class Model(object):
     """presence relation as the properties define it (C01 / C08), built from the accepted calls"""
 
@@ -212,10 +227,29 @@ def _histories(tier, seed, classes, modes, extra_calls, n_random, max_len, pairs
         [('add', 1, 2, -3, -1), ('add', 1, 2, -1, None), ('add', 2, 3, -2, 2)],
         [('add', 1, 2, 10, 12), ('add', 1, 2, 100, 103), ('add', 2, 3, 11, 101)],
     ]
+    def shift(h, d):
+        out = []
+        for c in h:
+            if c[0] == 'add':
+                out.append(('add', c[1], c[2], c[3] + d, None if c[4] is None else c[4] + d))
+            elif c[0] == 'from':
+                out.append(('from', c[1], c[2] + d, None if c[3] is None else c[3] + d))
+            else:
+                out.append((c[0], c[1], c[2] + d))
+        return out
+
+    # multi-run timelines in both directions of a pair (what conversions and readers have to merge)
+    long_alpha = [('add', u, v, t, e) for (u, v) in ((1, 2), (2, 1)) for t in range(0, 13) for e in (None, t + 1, t + 2, t + 4, t + 9)]
     for cls in classes:
         for removal in modes:
             for h in structured:
                 yield cls, removal, h
+            for _ in range(120 if tier == 'quick' else 1200):
+                hh = sorted((rng.choice(long_alpha) for _ in range(rng.randint(4, 7))), key=lambda c: c[3])
+                yield cls, removal, hh
+            for h in structured[:11]:
+                yield cls, removal, shift(h, -3)       # runs that start below and end at / around instant 0
+                yield cls, removal, shift(h, 1000)
             for c in alpha:
                 yield cls, removal, [c]
             for h in itertools.product(small, repeat=2):
@@ -225,9 +259,10 @@ def _histories(tier, seed, classes, modes, extra_calls, n_random, max_len, pairs
                     for b in alpha:
                         if b[1:3] in ((1, 2), (2, 1), (1, 1)) and rng.random() < (0.25 if tier == 'quick' else 1.0):
                             yield cls, removal, [a, b]
-            for _ in range(n_random):
+            for k in range(n_random):
                 n = rng.randint(3, max_len + 1)
-                yield cls, removal, [rng.choice(alpha) for _ in range(n)]
+                h = [rng.choice(alpha) for _ in range(n)]
+                yield cls, removal, (shift(h, -3) if k % 5 == 0 else h)
 
 
 def run_history(cls, removal, history, on_call=None):
